@@ -29,7 +29,8 @@ IsV(o, v) == o.t = "v" /\ o.v = v
 
 Do(m, e) ==
   CASE e.op = "dset"   -> <<[m EXCEPT !.env[e.k] = e.v], IF e.obs.t = "exc" THEN "RemoteSetRaised" ELSE "ok">>
-    [] e.op = "assign" -> <<[m EXCEPT !.env[e.k] = e.v], IF IsV(e.obs, e.v) THEN "ok" ELSE "AssignResult">>
+    [] e.op = "assign" -> <<[m EXCEPT !.env[e.k] = e.v],       \* (a function assigned by text comes back as a function reference)
+                            IF IsV(e.obs, e.v) \/ (e.v \in {8, 9} /\ e.obs.t = "fnref") THEN "ok" ELSE "AssignResult">>
     [] e.op = "dget"   -> IF m.env[e.k] = NotSet THEN <<[m EXCEPT !.live = FALSE], "ok">>
                           ELSE <<m, IF IsV(e.obs, m.env[e.k]) THEN "ok"
                                     ELSE IF m.env[e.k] = Undef THEN "UndefinedNotUndefined" ELSE "GetMismatch">>
